@@ -14,7 +14,7 @@ from psv.simk import _pslinux, psutil
 
 KEYS = ["Size", "KernelPageSize", "MMUPageSize", "Rss", "Pss", "Pss_Dirty", "Shared_Clean", "Shared_Dirty", "Private_Clean", "Private_Dirty",
         "Referenced", "Anonymous", "LazyFree", "AnonHugePages", "ShmemPmdMapped", "FilePmdMapped", "Shared_Hugetlb", "Private_Hugetlb", "Swap", "SwapPss", "Locked"]
-PATHS = [None, "/usr/lib/a b.so", "/x:y", "/l (deleted)", "[heap]"]
+PATHS = [None, "/usr/lib/a b.so", "/x:y", "/l (deleted)", "[heap]", "/opt/two  blanks\tand a tab.so"]
 F = ["Rss", "Size", "Pss", "Shared_Clean", "Shared_Dirty", "Private_Clean", "Private_Dirty", "Referenced", "Anonymous", "Swap"]
 PG = 4096
 
